@@ -68,6 +68,27 @@ theorem foldl_join_bnd (lS : Int) (hS : LimitOk lS) : ∀ (xs : List Nat) (init 
     intro init _
     exact ih _ (Bnd_andThen fun m _ => fun n hn => stringJoin_bounded hS hn)
 
+theorem uniqueMapping_bounded {n g : Nat} {l : Int} {sz : Nat} (h : uniqueMapping n g l = .ok sz) : (sz : Int) ≤ l := by
+  unfold uniqueMapping at h
+  simp only at h
+  by_cases hc : ((min g n : Nat) : Int) > l
+  · rw [if_pos hc] at h; cases h
+  · rw [if_neg hc] at h; injection h with h; omega
+
+theorem valNestedMap_nest (k : Nat) : (valNestedMap k).nest = k + 1 := by
+  induction k with
+  | zero => simp [valNestedMap, Val.nest]
+  | succ k ih => simp [valNestedMap, Val.nest, ih]
+
+/-- save_variable only succeeds on a value svalue_save_size accepts -/
+theorem saveVariable_ok_depth {v : Val} {l : Int} {n : Nat} (h : saveVariable v l = .ok n) :
+    v.nest = 0 ∨ 0 + v.nest ≤ maxSaveDepth := by
+  apply (saveSize_isSome v 0).mp
+  unfold saveVariable at h
+  split at h
+  · cases h
+  · rename_i sz heq; rw [heq]; rfl
+
 theorem valNested_nest (k : Nat) : (valNested k).nest = k + 1 := by
   induction k with
   | zero => simp [valNested, Val.nest]
@@ -216,6 +237,25 @@ theorem szCmdC_satisfies_spec (l : Limits) (hl : LimsOk l) (c : Ctor) (args : Li
   case regexp =>
     exact ar3_bnd (fun _ _ _ => Bnd_andThen fun _ _ => fun _ hn => allocateArray_bounded hA hn) h
   case reg_assoc => exact ar1_bnd (fun _ => Bnd_andThen fun _ _ => fun _ hn => allocateArray_bounded hA hn) h
+  case unique_mapping =>
+    exact ar2_bnd (fun _ _ => Bnd_andThen fun _ _ => fun _ hn => uniqueMapping_bounded hn) h
+  case save_nested_map => exact ar1_bnd (fun _ _ hn => saveVariable_bounded hS hn) h
+  case save_depth =>
+    refine ar1_bnd (fun d => Bnd_andThen fun _ hs => fun n hn => ?_) h
+    injection hn with hn
+    subst hn
+    have h1 := saveVariable_ok_depth hs
+    rw [valNested_nest] at h1
+    have h25 : 1 ≤ maxSaveDepth := by decide
+    omega
+  case save_depth_map =>
+    refine ar1_bnd (fun d => Bnd_andThen fun _ hs => fun n hn => ?_) h
+    injection hn with hn
+    subst hn
+    have h1 := saveVariable_ok_depth hs
+    rw [valNestedMap_nest] at h1
+    have h25 : 1 ≤ maxSaveDepth := by decide
+    omega
   case sprintf_pad =>
     refine ar2_bnd (fun _ _ => Bnd_andThen fun _ _ => ?_) h
     split
